@@ -71,7 +71,7 @@ func FormatDocumentWithOptions(journal *ast.Journal, content string, commodityFo
 			for j := range tx.Postings {
 				postingLines[tx.Postings[j].Range.Start.Line-1] = true
 			}
-			txEdits := formatTransactionWithOpts(tx, mapper, commodityFormats, globalAccountCol, opts)
+			txEdits := formatTransactionWithOpts(tx, content, mapper, commodityFormats, globalAccountCol, opts)
 			edits = append(edits, txEdits...)
 		}
 	}
@@ -146,7 +146,7 @@ func extractCommodityFormats(journal *ast.Journal) map[string]NumberFormat {
 	return formats
 }
 
-func formatTransactionWithOpts(tx *ast.Transaction, mapper *lsputil.PositionMapper, commodityFormats map[string]NumberFormat, globalAccountCol int, opts Options) []protocol.TextEdit {
+func formatTransactionWithOpts(tx *ast.Transaction, content string, mapper *lsputil.PositionMapper, commodityFormats map[string]NumberFormat, globalAccountCol int, opts Options) []protocol.TextEdit {
 	if len(tx.Postings) == 0 {
 		return nil
 	}
@@ -156,7 +156,7 @@ func formatTransactionWithOpts(tx *ast.Transaction, mapper *lsputil.PositionMapp
 
 	var alignment AlignmentInfo
 	if opts.AlignAmounts {
-		alignment = CalculateAlignmentWithGlobal(tx.Postings, commodityFormats, globalAccountCol)
+		alignment = calculateAlignmentWithGlobal(tx.Postings, commodityFormats, globalAccountCol, content)
 	}
 
 	for i := range tx.Postings {
@@ -165,7 +165,7 @@ func formatTransactionWithOpts(tx *ast.Transaction, mapper *lsputil.PositionMapp
 		if opts.SkipLines[line] {
 			continue
 		}
-		formatted := formatPostingWithOpts(posting, alignment, commodityFormats, indent, opts.AlignAmounts)
+		formatted := formatPostingWithOpts(posting, alignment, commodityFormats, indent, opts.AlignAmounts, content)
 
 		edit := protocol.TextEdit{
 			Range: protocol.Range{
@@ -240,6 +240,10 @@ func CalculateAlignment(postings []ast.Posting, commodityFormats map[string]Numb
 // CalculateAlignmentWithGlobal calculates alignment using a provided account column.
 // Use this with CalculateGlobalAlignmentColumn for file-wide consistent alignment.
 func CalculateAlignmentWithGlobal(postings []ast.Posting, commodityFormats map[string]NumberFormat, accountCol int) AlignmentInfo {
+	return calculateAlignmentWithGlobal(postings, commodityFormats, accountCol, "")
+}
+
+func calculateAlignmentWithGlobal(postings []ast.Posting, commodityFormats map[string]NumberFormat, accountCol int, content string) AlignmentInfo {
 
 	hasBalanceAssertion := false
 	maxAmountCostLen := 0
@@ -249,7 +253,7 @@ func CalculateAlignmentWithGlobal(postings []ast.Posting, commodityFormats map[s
 			hasBalanceAssertion = true
 		}
 		if p.Amount != nil {
-			amountCostLen := calculateAmountCostLen(p, commodityFormats)
+			amountCostLen := calculateAmountCostLen(p, commodityFormats, content)
 			maxAmountCostLen = max(maxAmountCostLen, amountCostLen)
 		}
 	}
@@ -264,7 +268,7 @@ func CalculateAlignmentWithGlobal(postings []ast.Posting, commodityFormats map[s
 	}
 }
 
-func calculateAmountCostLen(posting *ast.Posting, commodityFormats map[string]NumberFormat) int {
+func calculateAmountCostLen(posting *ast.Posting, commodityFormats map[string]NumberFormat, content string) int {
 	if posting.Amount == nil {
 		return 0
 	}
@@ -272,13 +276,13 @@ func calculateAmountCostLen(posting *ast.Posting, commodityFormats map[string]Nu
 	length := 0
 
 	if posting.Amount.Commodity.Position == ast.CommodityLeft {
-		length += utf8.RuneCountInString(posting.Amount.Commodity.Symbol)
+		length += utf8.RuneCountInString(commodityText(&posting.Amount.Commodity, content))
 	}
 
 	length += utf8.RuneCountInString(formatAmountQuantity(posting.Amount, commodityFormats))
 
 	if posting.Amount.Commodity.Position == ast.CommodityRight {
-		length += 1 + utf8.RuneCountInString(posting.Amount.Commodity.Symbol)
+		length += 1 + utf8.RuneCountInString(commodityText(&posting.Amount.Commodity, content))
 	}
 
 	if posting.Cost != nil {
@@ -288,11 +292,11 @@ func calculateAmountCostLen(posting *ast.Posting, commodityFormats map[string]Nu
 			length += 3 // " @ "
 		}
 		if posting.Cost.Amount.Commodity.Position == ast.CommodityLeft {
-			length += utf8.RuneCountInString(posting.Cost.Amount.Commodity.Symbol)
+			length += utf8.RuneCountInString(commodityText(&posting.Cost.Amount.Commodity, content))
 		}
 		length += utf8.RuneCountInString(formatAmountQuantity(&posting.Cost.Amount, commodityFormats))
 		if posting.Cost.Amount.Commodity.Position == ast.CommodityRight {
-			length += 1 + utf8.RuneCountInString(posting.Cost.Amount.Commodity.Symbol)
+			length += 1 + utf8.RuneCountInString(commodityText(&posting.Cost.Amount.Commodity, content))
 		}
 	}
 
@@ -300,14 +304,14 @@ func calculateAmountCostLen(posting *ast.Posting, commodityFormats map[string]Nu
 }
 
 func FormatPostingWithAlignment(posting *ast.Posting, alignment AlignmentInfo, commodityFormats map[string]NumberFormat) string {
-	return formatPostingWithOpts(posting, alignment, commodityFormats, defaultIndent, true)
+	return formatPostingWithOpts(posting, alignment, commodityFormats, defaultIndent, true, "")
 }
 
 func FormatPosting(posting *ast.Posting, alignCol int) string {
 	return FormatPostingWithAlignment(posting, AlignmentInfo{AccountCol: alignCol}, nil)
 }
 
-func formatPostingWithOpts(posting *ast.Posting, alignment AlignmentInfo, commodityFormats map[string]NumberFormat, indent string, alignAmounts bool) string {
+func formatPostingWithOpts(posting *ast.Posting, alignment AlignmentInfo, commodityFormats map[string]NumberFormat, indent string, alignAmounts bool, content string) string {
 	var sb strings.Builder
 
 	sb.WriteString(indent)
@@ -343,7 +347,7 @@ func formatPostingWithOpts(posting *ast.Posting, alignment AlignmentInfo, commod
 		}
 		sb.WriteString(strings.Repeat(" ", spaces))
 
-		writeAmountWithSign(&sb, posting.Amount, commodityFormats)
+		writeAmountWithSign(&sb, posting.Amount, commodityFormats, content)
 	}
 
 	if posting.Cost != nil {
@@ -352,7 +356,7 @@ func formatPostingWithOpts(posting *ast.Posting, alignment AlignmentInfo, commod
 		} else {
 			sb.WriteString(" @ ")
 		}
-		writeAmountWithSign(&sb, &posting.Cost.Amount, commodityFormats)
+		writeAmountWithSign(&sb, &posting.Cost.Amount, commodityFormats, content)
 	}
 
 	if posting.BalanceAssertion != nil {
@@ -369,7 +373,7 @@ func formatPostingWithOpts(posting *ast.Posting, alignment AlignmentInfo, commod
 		} else {
 			sb.WriteString("= ")
 		}
-		writeAmountWithSign(&sb, &posting.BalanceAssertion.Amount, commodityFormats)
+		writeAmountWithSign(&sb, &posting.BalanceAssertion.Amount, commodityFormats, content)
 	}
 
 	// The comment text starts right after the semicolon and keeps its own leading blank:
@@ -382,23 +386,36 @@ func formatPostingWithOpts(posting *ast.Posting, alignment AlignmentInfo, commod
 	return sb.String()
 }
 
-func writeAmountWithSign(sb *strings.Builder, amount *ast.Amount, commodityFormats map[string]NumberFormat) {
+// commodityText returns the commodity symbol as it was written in the source: in double
+// quotes if it stood in double quotes there. The tree keeps the symbol without its quotes, and
+// writing `"AAPL 2" 3` back as `AAPL 23` would change the commodity and the quantity.
+// content is the text the tree was parsed from ("" when unknown: symbols are written bare).
+func commodityText(c *ast.Commodity, content string) string {
+	start := c.Range.Start.Offset
+	if c.Symbol != "" && start >= 0 && start < len(content) && content[start] == '"' {
+		return `"` + c.Symbol + `"`
+	}
+	return c.Symbol
+}
+
+func writeAmountWithSign(sb *strings.Builder, amount *ast.Amount, commodityFormats map[string]NumberFormat, content string) {
 	qty := formatAmountQuantity(amount, commodityFormats)
+	symbol := commodityText(&amount.Commodity, content)
 
 	if amount.Commodity.Position == ast.CommodityLeft {
 		if amount.SignBeforeCommodity && len(qty) > 0 && (qty[0] == '-' || qty[0] == '+') {
 			sb.WriteByte(qty[0])
-			sb.WriteString(amount.Commodity.Symbol)
+			sb.WriteString(symbol)
 			sb.WriteString(qty[1:])
 		} else {
-			sb.WriteString(amount.Commodity.Symbol)
+			sb.WriteString(symbol)
 			sb.WriteString(qty)
 		}
 	} else {
 		sb.WriteString(qty)
-		if amount.Commodity.Symbol != "" {
+		if symbol != "" {
 			sb.WriteString(" ")
-			sb.WriteString(amount.Commodity.Symbol)
+			sb.WriteString(symbol)
 		}
 	}
 }
